@@ -183,6 +183,12 @@ pub struct String { _p: () }
 
 #[verifier::external_body]
 pub struct FromUtf8Error { _p: () }
+impl FromUtf8Error {
+    /// FromUtf8Error::utf8_error: the underlying Utf8Error (its `error_len()` is arbitrary: None for a truncated
+    /// sequence, Some(n) otherwise — nothing more is modelled)
+    #[verifier::external_body]
+    pub fn utf8_error(&self) -> (r: str::Utf8Error) { unimplemented!() }
+}
 
 impl String {
     pub uninterp spec fn bytes(&self) -> Seq<u8>;
